@@ -23,7 +23,7 @@ WORDCH = set("abcdefghijklmnopqrstuvwxyzABCDEFGHIJKLMNOPQRSTUVWXYZ0123456789_")
 
 
 # ------------------------------------------------------------------ implementation side
-def snapshot(p):
+def snapshot(p, light=False):
     import decpost
     from vlib import fl
     from decaylanguage.dec.enums import PhotosEnum
@@ -51,7 +51,8 @@ def snapshot(p):
             guarded(p.dict_jetset_definitions), guarded(p.dict_lineshape_settings), guarded(p.list_lineshapePW_definitions),
             guarded(lambda: p.global_photos_flag() == PhotosEnum.yes), guarded(p.dict_model_aliases),
             guarded(p.list_decay_mother_names), guarded(lambda: p.number_of_decays), guarded(lambda: decpost.observe_tables(p))]
-    for m in (p.list_decay_mother_names() if p._parsed_decays is not None else [])[:6]:
+    # (the complete chains of the first mothers of a master file have millions of nodes: not built for those)
+    for m in ([] if light else (p.list_decay_mother_names() if p._parsed_decays is not None else [])[:6]):
         snap.append(guarded(lambda: p.list_decay_modes(m)))
         snap.append(guarded(lambda: p.build_decay_chains(m)))
     return snap
@@ -91,7 +92,7 @@ def impl_main(mode, fin, fout):
                 with warnings.catch_warnings():
                     warnings.simplefilter("ignore")
                     p.parse()
-                snap = snapshot(p)
+                snap = snapshot(p, light=sum(len(f) for f in c["files"]) > 200000)
             except Exception as e:
                 snap = {"err": "parse:" + type(e).__name__}
             s = json.dumps(snap, sort_keys=True, default=str)
